@@ -123,3 +123,10 @@ CLAIMS['C11'] = dict(technique=GOCV,
        "Websocket.Do enters the message loop only after init returned true; close() is idempotent (second call: no frame, no cancel, no callback; first call: exactly one close frame and one socket close, callback at most once) with the mutex held around the frame write and balanced on every path; "
        "write() sends only while holding the mutex; run() hands the close watcher the context derived for (and cancelled with) the loop and reaches subscribe only from a start message; the subscription goroutine dispatches only after CreateOperationContext succeeded, drains the handler, and cannot die from a panic.",
   note=COMMON_NOTE + "gorilla/websocket, message exchangers and user callbacks trusted; channel operations are not modelled; ordering across goroutines, stop/complete races and 'at most one completion per id' are NOT decided.")
+
+CLAIMS['C12'] = dict(technique=GOCV,
+  text="Narrow: timing and interleavings are not decidable here. Decided: lock discipline on the SSE connection - every write to the shared ResponseWriter (event, completion marker, keep-alive ping) and every Flush happens while the connection mutex is held "
+       "(typestate ghost, closures passed to the locking helper are verified inline under held=true), writeJsonWithSSE emits one event per payload with one marshal, the completion marker is written after the single dispatch; "
+       "multipartResponseAggregator.flush works entirely under its mutex, writes nothing when nothing is pending, writes the initial payload at most once and clears it, writes the pending incremental payloads at most once in one array and clears them, "
+       "and ends with a delimiter whose 'closing' flag is exactly !hasNext; Add stores payloads under the mutex in arrival order.",
+  note=COMMON_NOTE + "select/channel operations modelled as nondeterministic choice; exactly-once delivery across goroutines, disconnects and JSON validity (encoding/json) are not decided.")
